@@ -23,7 +23,8 @@ ASSUMPTIONS = ['str() of Python ints / floats is the reference string form of a 
 SHARD_TIMEOUT = {'quick': 300, 'thorough': 1800}
 
 KINDS = ['int', 'float_integral', 'float_fractional', 'float_mixed', 'object_str', 'str', 'int32',
-         'float32_mixed', 'float32_integral']
+         'float32_mixed', 'float32_integral', 'uint', 'float_mixed_be']
+INT_KINDS = ('int', 'int32', 'uint')
 PATTERNS = ['none', 'some', 'all', 'empty']
 
 ANCHORS = {
@@ -59,6 +60,12 @@ def make_values(rng, kind, pattern):
         vals = [rng.choice(INTS) for _ in range(n)]
     elif kind == 'int32':
         vals = [rng.choice([0, 1, -1, 7, 42, -300, 10 ** 9, -2 ** 31, 2 ** 31 - 1]) for _ in range(n)]
+    elif kind == 'uint':          # unsigned columns (uint8 .. uint64)
+        vals = [rng.choice([0, 1, 7, 42, 200, 255]) for _ in range(n)]
+    elif kind == 'float_mixed_be':   # non-native byte order, as FITS / netCDF readers or np.fromfile produce
+        vals = [rng.choice(FRACS[:4] + INTEGRAL_FLOATS[:6]) for _ in range(n)]
+        if n:
+            vals[rng.randrange(n)] = rng.choice(FRACS[:4])
     elif kind == 'float32_mixed':
         vals = [float(np.float32(rng.choice([0.5, -1.25, 0.1, 3.0, 1e10, 1 / 3.0, -0.0, 7.0]))) for _ in range(n)]
         if n:
@@ -88,7 +95,7 @@ def make_values(rng, kind, pattern):
             vals[i], vals[j], vals[k] = rng.choice([(0.0, -0.0), (-0.0, 0.0)]) + (rng.choice(FRACS),)
     else:
         vals = [rng.choice(['a b', '12', '', 'x', 'nan', '3.0']) for _ in range(n)]
-    if kind in ('int', 'int32'):
+    if kind in INT_KINDS:
         return vals            # integer columns cannot hold NaN
     if pattern == 'some' and n:
         for i in rng.sample(range(n), rng.randint(1, max(1, n // 2))):
@@ -113,6 +120,10 @@ def make_series(kind, vals, index=None):
         return pd.Series(vals, dtype='int64', index=index)
     if kind == 'int32':
         return pd.Series(vals, dtype='int32', index=index)
+    if kind == 'uint':
+        return pd.Series(np.array(vals, dtype=('uint8', 'uint16', 'uint64')[len(vals) % 3]), index=index)
+    if kind == 'float_mixed_be':
+        return pd.Series(np.array(vals, dtype='>f8'), index=index)
     if kind.startswith('float32'):
         return pd.Series(vals, dtype='float32', index=index)
     if kind.startswith('float'):
@@ -127,7 +138,7 @@ def reference(kind, vals):
     present = [v for v in vals if not model.is_missing(v)]
     if kind in ('object_str', 'str'):
         return [None if model.is_missing(v) else v for v in vals]
-    if kind in ('int', 'int32'):
+    if kind in INT_KINDS:
         return [str(int(v)) for v in vals]
     all_integral = all(float(v).is_integer() for v in present)
     out = []
@@ -182,7 +193,7 @@ def run_case(case, rec, ssj=None):
     exp = reference(kind, vals)
     index = make_index(len(vals), rng.choice(['range', 'range', 'dup', 'const', 'str']))
     present = sum(1 for v in vals if not model.is_missing(v))
-    numeric = kind in ('int', 'int32', 'float_integral', 'float_fractional', 'float_mixed', 'float32_mixed',
+    numeric = kind in ('int', 'int32', 'uint', 'float_mixed_be', 'float_integral', 'float_fractional', 'float_mixed', 'float32_mixed',
                        'float32_integral')
     degenerate = numeric and present == 0          # the documented exception (empty / all-NaN numeric)
     tag = '%s(kind=%s, values=%r, index=%r, inplace=%r%s): ' % (
@@ -310,7 +321,7 @@ def known_f6(entry, kind, inplace, present, exc):
     KNOWN_FINDINGS.txt): series_to_str(<numeric Series with a present value>, inplace=True) cannot
     change the dtype of the caller's Series object under pandas >= 3 and raises TypeError from
     Series.update."""
-    if entry == 'series' and inplace and kind in ('int', 'int32', 'float_integral', 'float_fractional',
+    if entry == 'series' and inplace and kind in ('int', 'int32', 'uint', 'float_mixed_be', 'float_integral', 'float_fractional',
                                                   'float_mixed', 'float32_mixed', 'float32_integral') \
             and present > 0 and isinstance(exc, TypeError) and 'Invalid value' in str(exc):
         return 'series-inplace-numeric-pandas3'
